@@ -9,6 +9,15 @@ sys.path.insert(0, VERIF)
 from harness.core import CHECKS  # noqa
 
 TABLE = {
+    "C16": dict(
+        category="exploration", design_ref="3/C16",
+        technique="Hypothesis grammar-based and mutation-based fuzzing (raw bytes, header grammar with every JSON type per member, mutated valid compact and JSON tokens, reference-minted authenticated-but-malformed tokens, deep nesting) with an exception-type oracle and root-cause bucketing",
+        text="72 000 generated hostile inputs per quick run (7 generator families) are offered to every verification / decryption / JWT-decoding entry point with fixed well-formed keys "
+             "(matching key type chosen from the header so that processing goes deep) and four registry configurations; any exception that is not a JoseError or ValueError "
+             "(BaseException included, e.g. a pyo3 panic) is a finding keyed by exception type and innermost joserfc function. 16 committed witnesses of repaired root causes are replayed first. "
+             "Exploration: cannot show absence; p2c between 5001 and 2^63 is excluded by construction.",
+        note="keys/registries are well-formed by construction; CPU-time attacks (huge p2c) are out of scope; the reference forge (/verif/ref) mints the authenticated inputs",
+    ),
     "C02": dict(
         category="fault_enumeration", design_ref="3/C02",
         technique="exhaustive single-fault enumeration per Hypothesis-generated JWE (bit flips of every decoded segment, length changes, header re-spellings, splices, key/sender substitution, epk edits and forged invalid-point tokens, multi-recipient faults) judged by a differential oracle (independent reference decryptor)",
